@@ -36,6 +36,6 @@ package main
 // audience (the configured client id) and expiry; the verifier it builds is the one the
 // callback handler uses, and it belongs to the configured provider
 //@ func initOIDC
-//@   assigns *
+//@   assigns region(global.security.OIDCProvider), region(global.security.Oauth2Config), #lastVerifier
 //@   site (*github.com/coreos/go-oidc/v3/oidc.Provider).Verifier requires[C13] audience: arg1 != nil && arg1.ClientID == conf.OpenId.ClientId && !arg1.SkipClientIDCheck && !arg1.SkipExpiryCheck && !arg1.SkipIssuerCheck && !arg1.InsecureSkipSignatureCheck
 //@   site (*OIDCConfig).New requires[C13] wired: arg0.OIDCTokenVerifier == #lastVerifier && #lastVerifier != nil && arg0.OAuth2Config != nil && arg0.OAuth2Config.ClientID == conf.OpenId.ClientId
